@@ -673,7 +673,13 @@ func (p *Program) BuildTS(scenario *ssa.Function, cfg Config, solverName string,
 		}
 	}
 	// 3. properties as terms over the current-state variables
+	if os.Getenv("TSGEN_DEBUG") != "" {
+		fmt.Fprintf(os.Stderr, "tsgen: relation explored, solver stats %+v\n", solver.Stats)
+	}
 	for _, pr := range seg.safety {
+		if os.Getenv("TSGEN_DEBUG") != "" {
+			fmt.Fprintf(os.Stderr, "tsgen: property %s, solver stats %+v\n", pr.name, solver.Stats)
+		}
 		t, err := ts.evalProp(m, pr)
 		if err != nil {
 			return nil, err
@@ -1066,9 +1072,11 @@ type BMCOptions struct {
 	Workers   int
 	NoPOR     bool
 	NarrowBits int
+	widths     map[string]int // per state variable width refinement (name -> bits), filled by CheckBMC
 	Parallel   bool
 	DumpTo     string
 	NoTactic   bool
+	NoBlocked  bool // also ask for a quiescent state in which some goroutine is still blocked (deadlock / leaked goroutine)
 	ProgressB  int // >0: also ask for a schedule in which, B steps after every initial thread finished, some goroutine is still runnable (spin / no termination)
 }
 
@@ -1091,6 +1099,8 @@ type BMCResult struct {
 	FinalCells   map[string]uint64 // cell values at the last step (sample runs)
 	Sample       *BMCResult        // a quiescent run sampled from the model (for validation against the implementation)
 	ViolStep     int
+	Widened      map[string]int // state variables whose narrow width had to be raised (name -> bits)
+	rangeVars    []string
 }
 
 type tsInst struct {
@@ -1140,6 +1150,38 @@ func shortFn(s string) string {
 // safety property at some step, a final property at quiescence, or reaching a
 // fault / deadlock. One query per property class.
 func (ts *TSModel) CheckBMC(opt BMCOptions) (*BMCResult, error) {
+	// The state is carried in narrow bit-vectors; whenever some schedule drives
+	// a variable out of its narrow range, that variable is widened and the
+	// unrolling is repeated, so no schedule is excluded for range reasons.
+	opt.widths = map[string]int{}
+	queries, solverS := 0, 0.0
+	for round := 0; ; round++ {
+		res, err := ts.checkBMCOnce(opt)
+		if err != nil {
+			return nil, err
+		}
+		queries += res.Queries
+		solverS += res.SolverS
+		res.Queries, res.SolverS = queries, solverS
+		res.Widened = opt.widths
+		if res.Violated != "" || res.Unknown || !res.RangeExceeded || len(res.rangeVars) == 0 || round > 8 {
+			return res, nil
+		}
+		for _, n := range res.rangeVars {
+			w := opt.widths[n]
+			if w == 0 {
+				w = opt.NarrowBits
+				if w == 0 {
+					w = 8
+				}
+			}
+			_ = w
+			opt.widths[n] = 64
+		}
+	}
+}
+
+func (ts *TSModel) checkBMCOnce(opt BMCOptions) (*BMCResult, error) {
 	c := ts.ctx
 	insts := ts.instances(opt.Pool)
 	res := &BMCResult{K: opt.K}
@@ -1154,12 +1196,17 @@ func (ts *TSModel) CheckBMC(opt BMCOptions) (*BMCResult, error) {
 	if NW == 0 {
 		NW = 8
 	}
-	narrowW := func(w int) int {
-		if w == 0 || w <= NW {
+	narrowW := func(name string, w int) int {
+		nw := NW
+		if x, ok := opt.widths[name]; ok {
+			nw = x
+		}
+		if w == 0 || w <= nw {
 			return w
 		}
-		return NW
+		return nw
 	}
+	badBy := map[string][]*smt.Term{}
 	type stepVars struct {
 		cell  map[*cellInfo]*smt.Term
 		pc    []*smt.Term
@@ -1173,13 +1220,13 @@ func (ts *TSModel) CheckBMC(opt BMCOptions) (*BMCResult, error) {
 	for i := 0; i <= K; i++ {
 		sv := &stepVars{cell: map[*cellInfo]*smt.Term{}}
 		for _, ci := range ts.Cells {
-			sv.cell[ci] = c.Var(fmt.Sprintf("c%d_%s", i, ci.name), narrowW(ci.w))
+			sv.cell[ci] = c.Var(fmt.Sprintf("c%d_%s", i, ci.name), narrowW("c:"+ci.name, ci.w))
 		}
 		for t, in := range insts {
 			sv.pc = append(sv.pc, c.Var(fmt.Sprintf("pc%d_%d", i, t), 8))
 			regs := map[string]*smt.Term{}
 			for rn, w := range ts.Types[in.typ].Regs {
-				regs[rn] = c.Var(fmt.Sprintf("g%d_%d_%s", i, t, rn), narrowW(w))
+				regs[rn] = c.Var(fmt.Sprintf("g%d_%d_%s", i, t, rn), narrowW("r:"+ts.Types[in.typ].Name+":"+rn, w))
 			}
 			sv.reg = append(sv.reg, regs)
 		}
@@ -1203,7 +1250,7 @@ func (ts *TSModel) CheckBMC(opt BMCOptions) (*BMCResult, error) {
 			if ci.w == 0 {
 				t = c.Bool(x.(bool))
 			} else {
-				t = c.BV(bitsOf(x), narrowW(ci.w))
+				t = c.BV(bitsOf(x), narrowW("c:"+ci.name, ci.w))
 			}
 		}
 		asserts = append(asserts, c.Eq(steps[0].cell[ci], t))
@@ -1324,9 +1371,12 @@ func (ts *TSModel) CheckBMC(opt BMCOptions) (*BMCResult, error) {
 					next = c.Ite(s.cond, c.Subst(u, s.f, s.memo), next)
 				}
 			}
-			nv, bad := narrow(c, next, narrowW(ci.w), kindSignedSafe(ci))
+			nv, bad := narrow(c, next, narrowW("c:"+ci.name, ci.w), kindSignedSafe(ci))
 			asserts = append(asserts, c.Eq(nxt.cell[ci], nv))
 			rng = c.Or(rng, bad)
+			if bad != c.False {
+				badBy["c:"+ci.name] = append(badBy["c:"+ci.name], bad)
+			}
 		}
 		ovf := cur.ovf
 		fault := cur.fault
@@ -1385,9 +1435,12 @@ func (ts *TSModel) CheckBMC(opt BMCOptions) (*BMCResult, error) {
 				if k, ok := tt.regKind[rn]; ok {
 					signed = kindSigned(k)
 				}
-				nrv, bad := narrow(c, nr, narrowW(tt.Regs[rn]), signed)
+				nrv, bad := narrow(c, nr, narrowW("r:"+tt.Name+":"+rn, tt.Regs[rn]), signed)
 				asserts = append(asserts, c.Eq(nxt.reg[t][rn], nrv))
 				rng = c.Or(rng, bad)
+				if bad != c.False {
+					badBy["r:"+tt.Name+":"+rn] = append(badBy["r:"+tt.Name+":"+rn], bad)
+				}
 			}
 		}
 		for _, s := range sels {
@@ -1514,6 +1567,17 @@ func (ts *TSModel) CheckBMC(opt BMCOptions) (*BMCResult, error) {
 			}
 			cands = append(cands, cand{pr.Name, "final", c.Or(viol...)})
 		}
+		if opt.NoBlocked {
+			var viol []*smt.Term
+			for i := 0; i <= K; i++ {
+				var stuck []*smt.Term
+				for t := range insts {
+					stuck = append(stuck, c.And(c.Ne(steps[i].pc[t], c.BV(pcDone, 8)), c.Ne(steps[i].pc[t], c.BV(pcIdle, 8))))
+				}
+				viol = append(viol, c.And(quiescent[i], c.Or(stuck...)))
+			}
+			cands = append(cands, cand{"no-goroutine-blocked-forever", "final", c.Or(viol...)})
+		}
 		if opt.ProgressB > 0 && K-opt.ProgressB >= 0 {
 			var done []*smt.Term
 			for t, in := range insts {
@@ -1554,7 +1618,7 @@ func (ts *TSModel) CheckBMC(opt BMCOptions) (*BMCResult, error) {
 		}
 	}
 	// companion queries: what lies beyond the bound
-	if r, _ := solver.Check([]*smt.Term{c.Not(quiescent[K]), noOvf}, nil); r != smt.Unsat {
+	if r, _ := solver.Check([]*smt.Term{c.Not(quiescent[K]), noOvf, c.Ne(steps[K-1].sched, c.BV(schedHalt, 8))}, nil); r != smt.Unsat {
 		res.NotQuiescent = true
 	}
 	res.Queries++
@@ -1562,8 +1626,29 @@ func (ts *TSModel) CheckBMC(opt BMCOptions) (*BMCResult, error) {
 		res.PoolOverflow = true
 	}
 	res.Queries++
-	if r, _ := solver.Check([]*smt.Term{steps[K].rng}, nil); r != smt.Unsat {
-		res.RangeExceeded = true
+	{
+		var names []string
+		for n := range badBy {
+			names = append(names, n)
+		}
+		sort.Strings(names)
+		var flags []*smt.Term
+		for i, n := range names {
+			v := c.Var(fmt.Sprintf("rngv_%d", i), 0)
+			solver.Assert(c.Eq(v, c.Or(badBy[n]...)))
+			flags = append(flags, v)
+		}
+		if r, model := solver.Check([]*smt.Term{steps[K].rng}, flags); r != smt.Unsat {
+			res.RangeExceeded = true
+			for i, n := range names {
+				if r == smt.Sat && model[flags[i].Name] == 1 {
+					res.rangeVars = append(res.rangeVars, n)
+				}
+			}
+			if r != smt.Sat {
+				res.rangeVars = names
+			}
+		}
 	}
 	res.Queries++
 	{
@@ -1931,4 +2016,13 @@ func (p *Program) ReplayTS(scenario *ssa.Function, cfg Config, pool int, schedul
 		}
 	}
 	return rp, nil
+}
+
+// CellDescs lists the shared cells with their initial contents (diagnostics).
+func (ts *TSModel) CellDescs() []string {
+	var out []string
+	for _, ci := range ts.Cells {
+		out = append(out, fmt.Sprintf("%s w=%d init=%v symInit=%v", ci.cur.Name, ci.w, ci.init, ci.symInit))
+	}
+	return out
 }
